@@ -25,7 +25,7 @@ RULE = (
     "failing, spawning a grandchild, failing while being cancelled, needing one more suspension to "
     "finish their cancellation), body returning or failing; one cancel(victim) at every "
     "quiescent point of every interleaving; plus all scripts of length <= 4 over {ctx.cancel, "
-    "task.cancel, pause, check}; non-trivial = the cancellation was delivered while the victim "
+    "task.cancel, pause, check}; plus all scripts of length <= 3 in which the victim requests its own cancellation and then enters / runs / leaves nested blocks (failing or not, spawning or not) without catching CancelledError; non-trivial = the cancellation was delivered while the victim "
     "was inside a scope's enter, body or exit"
 )
 ASSUMPTIONS = [
@@ -84,6 +84,17 @@ def programs(tier: str):
     for L in range(1, 5):
         for script in itertools.product(OPS, repeat=L):
             yield {"family": "check", "script": list(script)}
+    # the victim requests its own cancellation (no suspension point since) and goes on entering,
+    # running and leaving nested scopes; ordinary errors of a nested scope are handled by the
+    # victim's code, cancellation never is
+    for L in (1, 2, 3):
+        for script in itertools.product(range(len(SELF_STEPS)), repeat=L):
+            if 0 not in script:
+                continue
+            for outer_spawn in (False, True):
+                if outer_spawn and L == 3 and tier == "quick":
+                    continue
+                yield {"family": "self", "script": list(script), "outer_spawn": outer_spawn}
     outer_blocks = list(_blocks(tier))
     for b in outer_blocks:
         yield {"family": "scope", "block": b, "cancels": 1, "outer": False}
@@ -109,8 +120,109 @@ def programs(tier: str):
         yield {"family": "scope", "block": dict(outer_blocks[0], child=dict(inner)), "cancels": 1, "outer": True}
 
 
+# steps of the "self" family: 0 = ctx.cancel() on itself; pause; nested block variants
+SELF_STEPS = [
+    ("cancel",),
+    ("pause",),
+    ("ascope", "return", False),
+    ("ascope", "raise", False),
+    ("ascope", "return", True),  # True: the nested scope spawns a task that blocks
+    ("ascope", "raise", True),
+    ("sscope", "raise", False),
+    ("updated", "return", False),
+]
+
+
 def explore_config(tier: str, program) -> dict:
     return {"cap": 400000}
+
+
+class _InnerErr(Exception):
+    pass
+
+
+def _self_script(program, ch: Chooser) -> Result:  # noqa: C901
+    from hv.vloop import Livelock
+    from hv.world import World
+
+    w = World(ch)
+    viols: list[dict] = []
+    steps = [SELF_STEPS[i] for i in program["script"]]
+    log: list = []
+    workers: list[asyncio.Task] = []
+    finished_before: list[asyncio.Task] = []  # ended before the victim asked for its cancellation
+    try:
+
+        async def worker(name):
+            await w.pause(name, low=True)
+
+        async def victim():
+            async with ctx.scope("outer"):
+                if program["outer_spawn"]:
+                    workers.append(ctx.spawn(worker, "wk-outer"))
+                for n, st in enumerate(steps):
+                    if st[0] == "cancel":
+                        if not log.count("cancel-requested"):
+                            finished_before.extend(x for x in workers if x.done())
+                        ctx.cancel()
+                        log.append("cancel-requested")
+                    elif st[0] == "pause":
+                        await asyncio.sleep(0)
+                        log.append("resumed-after-suspension")
+                    else:
+                        kind, ending, spawn = st
+                        try:
+                            if kind == "ascope":
+                                async with ctx.scope(f"inner{n}"):
+                                    if spawn:
+                                        workers.append(ctx.spawn(worker, f"wk{n}"))
+                                    if ending == "raise":
+                                        raise _InnerErr()
+                            elif kind == "sscope":
+                                with ctx.scope(f"inner{n}"):
+                                    raise _InnerErr()
+                            else:
+                                with ctx.updated():
+                                    pass
+                        except _InnerErr:
+                            log.append(f"handled-error-of-{kind}{n}")
+                for _ in range(2):
+                    await asyncio.sleep(0)
+                    log.append("keeps-running")
+            return "completed"
+
+        t = w.task(victim(), name="victim")
+        hang = False
+        try:
+            w.run()
+        except Livelock:
+            hang = True
+        first_cancel = next(i for i, st_ in enumerate(steps) if st_[0] == "cancel")
+        witness = "/".join("+".join(str(x) for x in st_) for st_ in steps[first_cancel:][:3])
+        if hang or not t.done():
+            viols.append(viol("termination", f"self/{witness}", "victim finishes", "pending", log=log))
+        elif not t.cancelled():
+            viols.append(
+                viol(
+                    "not-swallowed",
+                    f"self-request-lost/{witness}",
+                    "the victim asked for its own cancellation and never catches CancelledError: it ends cancelled",
+                    f"ended with {t.exception()!r}" if t.exception() is not None else f"returned {t.result()!r}",
+                    log=log,
+                    outer_spawn=program["outer_spawn"],
+                )
+            )
+        left = [x.get_name() for x in workers if not x.done()]
+        if left and t.done():
+            viols.append(viol("children-cancelled", f"self/child-survives/{witness}", "spawned tasks are finished or cancelled when the victim ends", left, log=log))
+        if t.done() and t.cancelled():
+            not_cancelled = [x.get_name() for x in workers if x.done() and not x.cancelled() and x not in finished_before]
+            if not_cancelled:
+                viols.append(viol("children-cancelled", f"self/child-awaited/{witness}", "blocked spawned tasks are cancelled, not awaited", not_cancelled, log=log))
+        outcome = f"self/cancelled={t.done() and t.cancelled()}/workers={len(workers)}"
+        return Result(outcome, len(steps) > 1, viols, {"log": log, "trace": w.trace})
+    finally:
+        w.close()
 
 
 def _check_script(program, ch: Chooser) -> Result:
@@ -198,6 +310,8 @@ def _check_script(program, ch: Chooser) -> Result:
 def execute(program, ch: Chooser) -> Result:  # noqa: C901
     if program["family"] == "check":
         return _check_script(program, ch)
+    if program["family"] == "self":
+        return _self_script(program, ch)
     r = Run(program, ch, cancels=1)
     viols: list[dict] = []
     waited: list = []
